@@ -79,6 +79,7 @@ static struct {
   int trace_rule;
   int verbose;
   long spin_limit;
+  double spin_secs;
 } cfg;
 
 static _Atomic long g_slept_us;
@@ -107,6 +108,7 @@ static void cfg_init(void) {
   cfg.stack_fill = 1;
   cfg.trace_rule = 1;
   cfg.spin_limit = 1L << 26;
+  cfg.spin_secs = 60.0;
   if ((s = getenv("MYTH_VERIF_PROFILE")) && *s) {
     if (strncmp(s, "noise", 5) == 0) {
       cfg.profile = PROF_NOISE;
@@ -136,6 +138,7 @@ static void cfg_init(void) {
   if ((s = getenv("MYTH_VERIF_TRACE_RULE")) && *s) cfg.trace_rule = atoi(s);
   if ((s = getenv("MYTH_VERIF_VERBOSE")) && *s) cfg.verbose = atoi(s);
   if ((s = getenv("MYTH_VERIF_SPIN_LIMIT")) && *s) cfg.spin_limit = atol(s);
+  if ((s = getenv("MYTH_VERIF_SPIN_SECS")) && *s) cfg.spin_secs = atof(s);
   cfg.inited = 1;
 }
 
@@ -153,6 +156,8 @@ typedef struct vt {
   int nb_depth;
   const char * nb_what;
   int last_spin_id;
+  uint64_t lock_run;
+  struct timespec lock_t0;
   uint64_t spin_run;
   struct timespec spin_t0;
   const void * pending_q;
@@ -325,7 +330,9 @@ static void inject(vt_t * t, int id) {
 void myth_verif_point(int id) {
   vt_t * t = vt_get();
   t->hits[id]++;
-  t->last_spin_id = -1;
+  /* points inside the sleep queue's critical section sit inside retry loops (wake spins):
+     they do not end a spin run */
+  if (id != MYTH_VERIF_ID_SQ_DEQ_LOCKED && id != MYTH_VERIF_ID_SQ_ENQ_LOCKED) { t->last_spin_id = -1; t->lock_run = 0; }
   ring_add(t, id, 0);
   if (t->nb_depth && g_cls[id] == 'B') {
     myth_verif_violation("nonblocking:blocked",
@@ -345,11 +352,37 @@ void myth_verif_point(int id) {
 void myth_verif_cov(int id) {
   vt_t * t = vt_get();
   t->hits[id]++;
+  if (id == MYTH_VERIF_ID_SPINLOCK_WAITED) t->lock_run = 0;   /* the lock was obtained */
 }
 
+static void spin_verdict(vt_t * t, int id, uint64_t run, struct timespec * t0) {
+  struct timespec now;
+  clock_gettime(CLOCK_MONOTONIC, &now);
+  double dt = (double)(now.tv_sec - t0->tv_sec) + 1e-9 * (double)(now.tv_nsec - t0->tv_nsec);
+  if (dt > cfg.spin_secs) {
+    char key[128];
+    snprintf(key, sizeof(key), "livelock:%s", myth_verif_name_of(id));
+    myth_verif_violation(key, "spin site %s iterated %llu times over %.1f s on worker %d",
+                         myth_verif_name_of(id), (unsigned long long)run, dt, t->rank);
+  }
+}
+
+/* The livelock verdict needs BOTH a large iteration count and a long wall time, so that neither a
+   loaded machine (slow yields) nor a fast one can produce it from a live execution. */
 void myth_verif_spin(int id) {
   vt_t * t = vt_get();
   t->hits[id]++;
+  if (id == MYTH_VERIF_ID_SPINLOCK_SPIN) {
+    /* A spin-lock waiter does not yield (the real code does not either: a waiter that gives up its
+       time slice after a few attempts can be starved for seconds on an oversubscribed machine by a
+       party that re-takes the lock in a loop).  The run ends when the lock is obtained
+       (SPINLOCK_WAITED) or at the next point. */
+    if (t->lock_run == 0) { clock_gettime(CLOCK_MONOTONIC, &t->lock_t0); ring_add(t, id, 0); }
+    t->lock_run++;
+    if (t->lock_run > (1ULL << 28) && (t->lock_run & 0xfffff) == 0) spin_verdict(t, id, t->lock_run, &t->lock_t0);
+    return;
+  }
+  /* sites that wait for another thread's progress: yield now and then */
   if (t->last_spin_id != id) {
     t->last_spin_id = id;
     t->spin_run = 0;
@@ -359,17 +392,7 @@ void myth_verif_spin(int id) {
   t->spin_run++;
   if ((t->spin_run & 63) == 0) {
     myth_verif_real_yield();
-    if (t->spin_run > (uint64_t)cfg.spin_limit && (t->spin_run & 0xffff) == 0) {
-      struct timespec now;
-      clock_gettime(CLOCK_MONOTONIC, &now);
-      double dt = (double)(now.tv_sec - t->spin_t0.tv_sec) + 1e-9 * (double)(now.tv_nsec - t->spin_t0.tv_nsec);
-      if (dt > 20.0) {
-        char key[128];
-        snprintf(key, sizeof(key), "livelock:%s", myth_verif_name_of(id));
-        myth_verif_violation(key, "spin site %s iterated %llu times over %.1f s on worker %d",
-                             myth_verif_name_of(id), (unsigned long long)t->spin_run, dt, t->rank);
-      }
-    }
+    if (t->spin_run > (1ULL << 22) && (t->spin_run & 0x3ff) == 0) spin_verdict(t, id, t->spin_run, &t->spin_t0);
   }
 }
 
